@@ -19,7 +19,8 @@ VARIABLES k,        \* index of the trace being validated
 
 vars == <<k, l, st, verdict>>
 
-St0 == [G |-> EmptyDs, made |-> {}, its |-> <<>>]
+Unset == {"<unset>"}
+St0 == [G |-> EmptyDs, made |-> {}, its |-> <<>>, lg |-> Unset]
 Has(r, f) == f \in DOMAIN r
 Tup3(q) == <<q[1], q[2], q[3]>>
 
@@ -106,7 +107,7 @@ ObsVerdict(s, c, o) ==
   ELSE IF Has(o, "quads") /\ ~NoDup(o.quads) THEN "NoDuplicates"
   ELSE IF Has(o, "graphs") /\ ~(s.made \cup {n \in DOMAIN G : G[n] # {}} \cup (IF c.dataset THEN {DEFAULT} ELSE {})
                                   \subseteq SeqToSet(o.graphs)) THEN "GraphsListed"
-  ELSE IF Has(o, "graphs") /\ ~(SeqToSet(o.graphs) \subseteq DOMAIN G) THEN "GraphsForgotten"
+  ELSE IF Has(o, "graphs") /\ ~(SeqToSet(o.graphs) \subseteq DOMAIN G) THEN "GraphsUnknown"
   ELSE IF Has(o, "graphs") /\ ~NoDup(o.graphs) THEN "NoDuplicates"
   ELSE IF Has(o, "member") /\ \E i \in 1..Len(o.member) :
             o.member[i].r # (Tup3(o.member[i].q) \in DView(G, c, o.member[i].q[4])) THEN "QuadMembership"
@@ -121,8 +122,7 @@ ObsVerdict(s, c, o) ==
 (* C13: a read leaves everything as it was, and repeated reads agree *)
 ReadVerdict(e) ==
   IF e.op # "read" THEN "ok"
-  ELSE IF Has(e, "raise") THEN "ok"   \* a read that raises is judged only by purity (obs) below
-  ELSE IF Has(e, "same") /\ ~e.same THEN "ReadStable"
+  ELSE IF Has(e, "v1") /\ e.v1 # e.v2 THEN "ReadStable"
   ELSE "ok"
 
 Judge(s, c, e) ==
@@ -134,12 +134,16 @@ Judge(s, c, e) ==
        IF v1 # "ok" THEN v1
        ELSE IF ~Has(e, "obs") THEN "ok"
        ELSE LET G2 == NewG(s, e)
-                s2 == [G |-> G2, made |-> NewMade(s, e), its |-> s.its]
+                s2 == [G |-> G2, made |-> NewMade(s, e), its |-> s.its, lg |-> s.lg]
                 v2 == ObsVerdict(s2, c, e.obs)
-            IN IF v2 = "ok" THEN "ok"
+            IN IF v2 = "ok"
+               THEN (IF e.op = "read" /\ Has(e.obs, "graphs") /\ s.lg # Unset /\ SeqToSet(e.obs.graphs) # s.lg
+                     THEN "ReadsPure:GraphSet" ELSE "ok")
                ELSE IF e.op \in {"read", "binop", "open", "next"} THEN "ReadsPure:" \o v2 ELSE v2
 
-ApplyEv(s, e) == LET G2 == NewG(s, e) IN [G |-> G2, made |-> NewMade(s, e), its |-> NewIts(s, e, G2)]
+ApplyEv(s, e) == LET G2 == NewG(s, e) IN
+                 [G |-> G2, made |-> NewMade(s, e), its |-> NewIts(s, e, G2),
+                  lg |-> IF Has(e, "obs") /\ Has(e.obs, "graphs") THEN SeqToSet(e.obs.graphs) ELSE s.lg]
 
 (* ---------------- chained validation ------------------------------------ *)
 Init == k = 1 /\ l = 1 /\ st = St0 /\ verdict = "ok"
